@@ -5,8 +5,10 @@ import (
 	"sort"
 	"strings"
 
+	"github.com/go-task/task/v3/zverif/vatomic"
 	"github.com/go-task/task/v3/zverif/vlab"
 	"github.com/go-task/task/v3/zverif/vsched"
+	"github.com/go-task/task/v3/zverif/vsync"
 )
 
 // SELF: the scheduler shims checked against small programs whose complete outcome sets are
@@ -97,6 +99,53 @@ func selfCases() []selfCase {
 			}
 			wg.Wait()
 			return fmt.Sprint(n)
+		}},
+		{name: "typed-atomic-load-then-store", bound: 2, allowed: []string{"1", "2"}, body: func() string {
+			var n vatomic.Int32
+			var wg vsched.WaitGroup
+			for i := 0; i < 2; i++ {
+				wg.Add(1)
+				vsched.Go(func() {
+					defer wg.Done()
+					v := n.Load()
+					n.Store(v + 1)
+				})
+			}
+			wg.Wait()
+			return fmt.Sprint(n.Load())
+		}},
+		{name: "sync-map-check-then-act", bound: 2, allowed: []string{"1", "2"}, body: func() string {
+			var m vsync.Map
+			var runs vatomic.Int32
+			var wg vsched.WaitGroup
+			for i := 0; i < 2; i++ {
+				wg.Add(1)
+				vsched.Go(func() {
+					defer wg.Done()
+					if _, ok := m.Load("k"); !ok {
+						m.Store("k", true)
+						runs.Add(1)
+					}
+				})
+			}
+			wg.Wait()
+			return fmt.Sprint(runs.Load())
+		}},
+		{name: "sync-map-load-or-store", bound: 2, allowed: []string{"1"}, body: func() string {
+			var m vsync.Map
+			var runs vatomic.Int32
+			var wg vsched.WaitGroup
+			for i := 0; i < 2; i++ {
+				wg.Add(1)
+				vsched.Go(func() {
+					defer wg.Done()
+					if _, loaded := m.LoadOrStore("k", true); !loaded {
+						runs.Add(1)
+					}
+				})
+			}
+			wg.Wait()
+			return fmt.Sprint(runs.Load())
 		}},
 		{name: "unbuffered-two-senders", bound: 2, allowed: []string{"ab", "ba"}, body: func() string {
 			ch := make(chan string)
